@@ -145,8 +145,11 @@ class JsonDocument(HierDictDocument):
         return value
 
     def _ret_bool(self, cls, value):
-        if value is None or value in (True, False):
-            return value
+        if value is None:
+            return None
+        if value in (True, False):
+            # 0, 1, 0.0 and 1.0 compare equal to booleans: hand a bool over
+            return bool(value)
         raise ValidationError(value)
 
     def validate(self, key, cls, val):
